@@ -13,6 +13,8 @@ Emitted (all consumed by theories/Geom/*.v, so that changing the code changes th
   gen_avg_final / gen_scale_factor   generic-carrier expressions of the rescale step   graph_layout.vespr_layout
   gen_vespr_tail         list of TAlign | TRescale: EVERY statement of vespr_layout after check_and_fix_cis_trans
   gen_rot_xy             one row of linalg_functions.rotate (matrix literal) about the origin [0, 0]
+  circ_align             CircAlignUnbound | CircAlignIgnored | CircAlignApplied   graph_layout.circular_layout
+  (vespr_refined_layout, _force_minimize: statements pinned, nothing emitted)
 """
 import ast
 
@@ -274,7 +276,7 @@ def _align_block(st):
     mp = {st.body[0].targets[0].id: 'pos_arr', st.body[1].targets[0].id: 'pos_aligned', tn[0]: 'idx', tn[1]: 'node'}
     if len(mp) != 4 or set(mp) & {'pos', 'graph', 'default_bond', 'np', 'align_with', 'rotate_to_axis'}:
         return False
-    return _ur(st, mp) == ALIGN_BLOCK
+    return _ur(st, mp) == _norm(ALIGN_BLOCK)
 
 
 def _rescale_group(group):
@@ -406,6 +408,94 @@ def linalg_facts(tree):
     return '(%s, %s)' % (comp[0], comp[1])
 
 
+def _norm(text):
+    """the running interpreter's spelling of a statement (ast.unparse differs between Python versions)"""
+    return ast.unparse(ast.parse(text))
+
+
+REFINED_BODY = [
+    'atom_to_idx = OrderedDict(zip(list(graph.nodes), range(0, len(graph.nodes))))',
+    'max_iter = 5',
+    'counter = 0',
+    ('while counter < max_iter:\n'
+     '    pos = vespr_layout(graph, default_bond)\n'
+     '    (pos, energy) = _force_minimize(graph, pos, default_bond, default_angle, atom_to_idx, lbfgs_options)\n'
+     '    if energy < target_energy:\n'
+     '        break\n'
+     '    counter += 1'),
+    ('if align_with is not None:\n'
+     '    pos_aligned = rotate_to_axis(pos, align_with)\n'
+     'else:\n'
+     '    pos_aligned = pos'),
+    'positions = {}',
+    'for (node_key, idx) in atom_to_idx.items():\n    positions[node_key] = pos_aligned[idx]',
+    'return positions']
+
+FORCE_MIN_LINES = ['atom_to_idx = atom_to_idx = {n: idx for (idx, n) in enumerate(pos.keys())}',
+                   'pos = np.ravel(np.array(list(pos.values())))',
+                   'return (pos, energy)']
+
+
+def refined_facts(tree, utree):
+    """vespr_refined_layout: the whole body is pinned (the optimiser is third party; what the model takes from the
+    code is: rows of the optimiser's array follow the key order of the dict vespr_layout returned, the write-back
+    runs over graph.nodes with idx = position, optional rotate_to_axis of all rows in between)"""
+    fn = _fn(tree, 'vespr_refined_layout')
+    if [a.arg for a in fn.args.args] != ['graph', 'default_bond', 'align_with', 'default_angle', 'target_energy',
+                                         'lbfgs_options']:
+        raise Unsupported('vespr_refined_layout arguments')
+    lines = [_u(s) for s in _strip_doc(fn.body)]
+    expected = [_norm(x) for x in REFINED_BODY]
+    if lines != expected:
+        for a, b in zip(lines, expected):
+            if a != b:
+                raise Unsupported('vespr_refined_layout: statement changed: ' + a.split('\n')[0])
+        raise Unsupported('vespr_refined_layout: number of statements changed')
+    fm = _fn(utree, '_force_minimize')
+    fl = [_u(s) for s in _strip_doc(fm.body)]
+    for l in [_norm(x) for x in FORCE_MIN_LINES]:
+        if l not in fl:
+            raise Unsupported('_force_minimize: statement not found: ' + l)
+    og = _fn(utree, '_optimize_geometry_2D')
+    ol = [_u(s) for s in _strip_doc(og.body)]
+    if ol[-2:] != [_norm("positions = opt_result['x'].reshape((-1, 2))"), _norm("return (positions, opt_result['fun'])")]:
+        raise Unsupported('_optimize_geometry_2D: result shape changed')
+
+
+def circular_facts(tree):
+    """circular_layout: coordinates from _generate_circle_coordinates, written under the first nodes of the edges of
+    nx.find_cycle in order.  The alignment block is classified:
+      CircAlignUnbound  the argument of rotate_to_axis is a local name that is only bound LATER (UnboundLocalError)
+      CircAlignIgnored  the call works but its result is not what the write loop reads
+      CircAlignApplied  the write loop reads the aligned rows"""
+    fn = _fn(tree, 'circular_layout')
+    if [a.arg for a in fn.args.args] != ['graph', 'radius', 'align_with']:
+        raise Unsupported('circular_layout arguments')
+    body = _strip_doc(fn.body)
+    lines = [_u(s) for s in body]
+    if len(body) != 6:
+        raise Unsupported('circular_layout: number of statements changed')
+    if lines[0] != 'positions = _generate_circle_coordinates(radius=radius, num_points=len(graph))':
+        raise Unsupported('circular_layout: ' + lines[0])
+    if lines[2:] != ['pos = {}', 'start = list(graph.nodes)[0]',
+                     _norm('for (idx, (node, _)) in enumerate(nx.find_cycle(graph, source=start)):\n    pos[node] = positions[idx]'),
+                     'return pos']:
+        raise Unsupported('circular_layout: write-back statements changed')
+    blk = body[1]
+    if not (isinstance(blk, ast.If) and _u(blk.test) == 'align_with is not None' and not blk.orelse
+            and len(blk.body) == 1 and isinstance(blk.body[0], ast.Assign) and isinstance(blk.body[0].targets[0], ast.Name)
+            and isinstance(blk.body[0].value, ast.Call) and _u(blk.body[0].value.func) == 'rotate_to_axis'
+            and len(blk.body[0].value.args) == 2 and not blk.body[0].value.keywords
+            and isinstance(blk.body[0].value.args[0], ast.Name) and _u(blk.body[0].value.args[1]) == 'align_with'):
+        raise Unsupported('circular_layout: alignment block changed')
+    arg, tgt = blk.body[0].value.args[0].id, blk.body[0].targets[0].id
+    if arg == 'positions':
+        return 'CircAlignApplied' if tgt == 'positions' else 'CircAlignIgnored'
+    if arg == 'pos':                      # assigned two statements later: a local name, unbound here
+        return 'CircAlignUnbound'
+    raise Unsupported('circular_layout: rotate_to_axis(%s, ...)' % arg)
+
+
 def rotate_facts(tree):
     fn = _fn(tree, 'rotate_subgraph')
     lines = [_u(s) for s in _strip_doc(fn.body)]
@@ -437,6 +527,8 @@ def gen_geom(trees):
     bound = r2n_facts(rd)
     avg_final, factor, steps = rescale_facts(trees['cgsmiles/graph_layout.py'])
     rot_xy = linalg_facts(trees['cgsmiles/linalg_functions.py'])
+    refined_facts(trees['cgsmiles/graph_layout.py'], trees['cgsmiles/graph_layout_utils.py'])
+    circ = circular_facts(trees['cgsmiles/graph_layout.py'])
     rotate_facts(trees['cgsmiles/graph_layout_utils.py'])
     out = 'From CGV Require Import Geom.Num.\n\n'
     out += '(* coordinates.forward_map_molecule: cg_pos = (sum of position*weight) / <denominator> *)\n'
@@ -459,4 +551,7 @@ def gen_geom(trees):
     out += '(* linalg_functions.rotate about the origin [0, 0]: one row (x, y) of np.dot(positions, rotation_matrix.T), *)\n'
     out += '(* c = np.cos(angle), s = np.sin(angle) *)\n'
     out += 'Definition gen_rot_xy {M : Type} (o : numops M) (c s x y : M) : M * M := %s.\n' % rot_xy
+    out += '\n(* graph_layout.circular_layout: what `if align_with is not None:` does (see tools/gen_geom.circular_facts) *)\n'
+    out += 'Inductive circ_align_mode := CircAlignUnbound | CircAlignIgnored | CircAlignApplied.\n'
+    out += 'Definition circ_align : circ_align_mode := %s.\n' % circ
     return out
